@@ -42,7 +42,7 @@ CATS = ["a", "b", "c", "NaN", "dd"]
 
 # the one quantity shape used everywhere (self-contained: picklable through marshal)
 def _cell(d, col):
-    # a record is a list of cells (row-wise fill) or a numpy record array with fields c0..c7 (fill.numpy)
+    # a record is a list of cells (row-wise fill), a dict {"c0": ...} or a numpy record array with fields c0..c7
     v = d[col] if isinstance(d, (list, tuple)) else d["c%d" % col]
     if v is RAISES:
         raise Boom("quantity raised")
@@ -147,10 +147,64 @@ def gen_spec(rng, depth, kinds=None, leaf_kinds=None, allow_bag=True):
     raise ValueError(k)
 
 
+# module-level `def` quantities (a def has an implicit name: the function name)
+def col0(d):
+    return _cell(d, 0)
+
+
+def col1(d):
+    return _cell(d, 1)
+
+
+def col2(d):
+    return _cell(d, 2)
+
+
+def col3(d):
+    return _cell(d, 3)
+
+
+DEFS = {0: col0, 1: col1, 2: col2, 3: col3}
+
+
 def mkq(q):
-    col, name = q
+    """q = [column, name] or [column, name, form]; form in lambda (default) | def | str | cached | cachedstr"""
+    col, name = q[0], q[1]
+    form = q[2] if len(q) > 2 else "lambda"
+    if form == "def" and col in DEFS:
+        return DEFS[col]                      # implicit name colN
+    if form == "str":
+        return "c%d" % col                    # string expression; implicit name is its text
+    if form == "cachedstr":
+        from histogrammar.util import cached
+
+        return cached("c%d" % col)
     f = make_quantity(col)
+    if form == "cached":
+        from histogrammar.util import cached
+
+        f = cached(f)
     return named(name, f) if name is not None else f
+
+
+def effective_name(q):
+    form = q[2] if len(q) > 2 else "lambda"
+    if form == "def" and q[0] in DEFS:
+        return "col%d" % q[0]
+    if form in ("str", "cachedstr"):
+        return "c%d" % q[0]
+    return q[1]
+
+
+def effective_spec(spec):
+    """the spec as the model sees it: quantities are (column, effective name)"""
+    import copy
+
+    s = copy.deepcopy(spec)
+    for node in walk(s):
+        if "q" in node:
+            node["q"] = [node["q"][0], effective_name(node["q"])]
+    return s
 
 
 def build(spec):
